@@ -348,3 +348,11 @@ func (s *Session) MarkFailed() {
 
 // InTx reports whether a transaction is open (for the harness).
 func (s *Session) InTx() bool { return s.top != 0 }
+
+// TxOpen is InTx read under the engine lock: for harness goroutines other than the one
+// that drives the session (e.g. waiting for a rollback issued by database/sql itself).
+func (s *Session) TxOpen() bool {
+	s.db.mu.Lock()
+	defer s.db.mu.Unlock()
+	return s.top != 0
+}
